@@ -37,7 +37,7 @@ def run(rep, replay_case=None):
         q_ = _gen.gen_pat(rng, rng.choice((0, 1, 2)))
         flines.append(f'esubst {x_} {sx.pat_to_s(q_)} {sx.pat_to_s(p_)}')
         flines.append(f'ssubst {x_} {sx.pat_to_s(q_)} {sx.pat_to_s(p_)}')
-        if _pm.subst_wf(p_):
+        if True:      # all patterns: the model `instU` includes the "unchanged" optimisation of instantiate_internal
             n_ = rng.choice((1, 2))
             ids_ = [rng.choice(_gen.IDS) for _ in range(n_)]
             plugs_ = [_gen.gen_pat(rng, rng.choice((0, 1, 2))) for _ in range(n_)]
